@@ -38,13 +38,68 @@ func c05NonNegAmount(c *Ctx, fi *FuncInfo, stmt *ast.AssignStmt, rhs ast.Expr) b
 	if !ok || v.IsField() {
 		return false
 	}
-	min, ok := c05ResultMin(c, fi, v)
-	return ok && min+k >= 0
+	vals, ok := c05ResultConsts(c, fi, v)
+	if !ok {
+		return false
+	}
+	// the constants the guards in force rule out (`if used == 0 { break }` before `i += used - 1`)
+	var facts []Atom
+	if g := c.P.Graph(fi); g != nil {
+		if loc, ok := g.Locate(stmt); ok {
+			facts = c18Facts(g, loc, g.Guards(loc))
+		}
+	}
+	vt := termOf(info, id)
+	n := 0
+	for _, cv := range vals {
+		if cv+k >= 0 {
+			n++
+			continue
+		}
+		if c05ConstExcluded(facts, vt, cv) {
+			continue
+		}
+		n++
+		if cv+k < 0 {
+			return false
+		}
+	}
+	return n > 0
 }
 
-// c05ResultMin: v is a local defined exactly once, as the j-th result of a call of a repository function whose
-// every return statement gives an integer constant for result j; returns the least of them.
-func c05ResultMin(c *Ctx, fi *FuncInfo, v *types.Var) (int64, bool) {
+// c05ConstExcluded: the facts (about t alone) are false when t has the value v.
+func c05ConstExcluded(facts []Atom, t Term, v int64) bool {
+	for _, a := range facts {
+		var x int64
+		switch {
+		case a.A.ID == t.ID && a.B.ID == "":
+			x = v
+		case a.A.ID == "" && a.B.ID == t.ID:
+			x = -v
+		default:
+			continue
+		}
+		switch a.Kind {
+		case "lin":
+			if !(x <= a.K) {
+				return true
+			}
+		case "eq":
+			if x != a.K {
+				return true
+			}
+		case "ne":
+			if x == a.K {
+				return true
+			}
+		}
+	}
+	return false
+}
+
+// c05ResultConsts: v is a local defined exactly once, as the j-th result of a call of a repository function whose
+// every return statement gives an integer constant for result j; returns those constants.
+func c05ResultConsts(c *Ctx, fi *FuncInfo, v *types.Var) ([]int64, bool) {
 	info := fi.Pkg.TypesInfo
 	var call *ast.CallExpr
 	idx, defs := -1, 0
@@ -92,23 +147,23 @@ func c05ResultMin(c *Ctx, fi *FuncInfo, v *types.Var) (int64, bool) {
 		return true
 	})
 	if defs != 1 || call == nil {
-		return 0, false
+		return nil, false
 	}
 	fn := calleeOf(info, call)
 	if fn == nil {
-		return 0, false
+		return nil, false
 	}
 	cf := c.P.FuncOfObj(fn)
 	if cf == nil || cf.Decl.Body == nil {
-		return 0, false
+		return nil, false
 	}
 	sig, _ := fn.Type().(*types.Signature)
 	if sig == nil || idx >= sig.Results().Len() {
-		return 0, false
+		return nil, false
 	}
 	cinfo := cf.Pkg.TypesInfo
-	var min int64
-	n, good := 0, true
+	var vals []int64
+	good := true
 	inspectNoLit(cf.Decl.Body, func(m ast.Node) bool {
 		rs, ok := m.(*ast.ReturnStmt)
 		if !ok {
@@ -123,14 +178,11 @@ func c05ResultMin(c *Ctx, fi *FuncInfo, v *types.Var) (int64, bool) {
 			good = false
 			return true
 		}
-		if n == 0 || cv < min {
-			min = cv
-		}
-		n++
+		vals = append(vals, cv)
 		return true
 	})
-	if !good || n == 0 {
-		return 0, false
+	if !good || len(vals) == 0 {
+		return nil, false
 	}
-	return min, true
+	return vals, true
 }
